@@ -46,6 +46,8 @@ def allSame : List (Option SC) → Option SC
 structure Validators where
   url : Bytes → Bool
   tru : Bytes → Bool
+  /-- does the static prefix put the action into the query or fragment part (`#`/`?`, raw or as a character reference) -/
+  inQuery : Bytes → Bool
 
 def sanitizersForAttributeValue (v : Validators) (c : Ctx) : Option (List String) :=
   let elems := if c.elemNames.isEmpty then [c.elemName] else c.elemNames
@@ -70,7 +72,7 @@ def sanitizersForAttributeValue (v : Validators) (c : Ctx) : Option (List String
         match ok with
         | some true =>
           if sc0 == .TrustedResourceURL then some [fnHTML, fnQueryEscapeURL, fnValidateTRUSubst].reverse
-          else if c.attrValue.any (fun b => b == 35 || b == 63) then some [fnHTML, fnQueryEscapeURL].reverse
+          else if v.inQuery c.attrValue then some [fnHTML, fnQueryEscapeURL].reverse
           else some [fnHTML, fnNormalizeURL].reverse
         | _ => none
 
